@@ -28,7 +28,8 @@ type Datagram struct {
 	ID     uint32 `json:"id"`
 	Src    byte   `json:"src"` // last byte of 10.0.0.x
 	Dst    byte   `json:"dst"`
-	Len    int    `json:"len"` // payload length
+	Rev    bool   `json:"rev,omitempty"` // addresses swapped: the datagram travels from 10.0.1.Dst to 10.0.0.Src
+	Len    int    `json:"len"`           // payload length
 	Salt   byte   `json:"salt"`
 	OptLen int    `json:"opt_len"` // option bytes in the first fragment's header (multiple of 4)
 	Cuts   []int  `json:"cuts"`    // cut points in 8-byte units, ascending, in (0, ceil(Len/8))
@@ -98,7 +99,7 @@ var serOpts = gopacket.SerializeOptions{FixLengths: true, ComputeChecksums: true
 // mkV4 serialises and re-decodes a real IPv4 packet so Length/IHL/Payload are what users pass.
 func mkV4(d *Datagram, off, size int, more, df bool, optLen int, corrupt bool) (*layers.IPv4, error) {
 	ip := &layers.IPv4{Version: 4, TTL: 64, Protocol: layers.IPProtocolUDP, Id: uint16(d.ID),
-		SrcIP: net.IPv4(10, 0, 0, d.Src).To4(), DstIP: net.IPv4(10, 0, 1, d.Dst).To4(),
+		SrcIP: d.srcV4(), DstIP: d.dstV4(),
 		FragOffset: uint16(off / 8), Options: ipOptions(optLen)}
 	if more {
 		ip.Flags |= layers.IPv4MoreFragments
@@ -120,7 +121,22 @@ func mkV4(d *Datagram, off, size int, more, df bool, optLen int, corrupt bool) (
 
 type key struct {
 	src, dst byte
+	rev      bool
 	id       uint32
+}
+
+func (d *Datagram) srcV4() net.IP {
+	if d.Rev {
+		return net.IPv4(10, 0, 1, d.Dst).To4()
+	}
+	return net.IPv4(10, 0, 0, d.Src).To4()
+}
+
+func (d *Datagram) dstV4() net.IP {
+	if d.Rev {
+		return net.IPv4(10, 0, 0, d.Src).To4()
+	}
+	return net.IPv4(10, 0, 1, d.Dst).To4()
 }
 
 type recv struct {
@@ -171,7 +187,7 @@ func runV4(c *Case) *vh.Failure {
 	df := ip4defrag.NewIPv4Defragmenter()
 	st := map[key]*kstate{}
 	ks := func(d *Datagram) *kstate {
-		k := key{d.Src, d.Dst, d.ID}
+		k := key{d.Src, d.Dst, d.Rev, d.ID}
 		if st[k] == nil {
 			st[k] = &kstate{got: map[int]bool{}}
 		}
@@ -316,7 +332,7 @@ func checkOut(out *layers.IPv4, d *Datagram, i int, cls string) *vh.Failure {
 	if int(out.Length) != int(out.IHL)*4+len(out.Payload) {
 		return vh.Failf("ip4:length:"+cls, "op %d: Length=%d but IHL*4+len(payload)=%d+%d", i, out.Length, int(out.IHL)*4, len(out.Payload))
 	}
-	if out.Id != uint16(d.ID) || !out.SrcIP.Equal(net.IPv4(10, 0, 0, d.Src)) || !out.DstIP.Equal(net.IPv4(10, 0, 1, d.Dst)) || out.Protocol != layers.IPProtocolUDP || out.Version != 4 {
+	if out.Id != uint16(d.ID) || !out.SrcIP.Equal(d.srcV4()) || !out.DstIP.Equal(d.dstV4()) || out.Protocol != layers.IPProtocolUDP || out.Version != 4 {
 		return vh.Failf("ip4:header:"+cls, "op %d: header fields of the reassembled datagram are wrong: id=%d src=%v dst=%v proto=%v", i, out.Id, out.SrcIP, out.DstIP, out.Protocol)
 	}
 	return nil
@@ -371,7 +387,10 @@ func provenance(c *Case, out *layers.IPv4, s *kstate, i int) *vh.Failure {
 func mkV6(d *Datagram, off, size int, more bool) (*layers.IPv6, *layers.IPv6Fragment, error) {
 	ip := &layers.IPv6{Version: 6, HopLimit: 64, NextHeader: layers.IPProtocolIPv6Fragment, FlowLabel: 7,
 		SrcIP: net.ParseIP("fd00::1"), DstIP: net.ParseIP("fd00::2")}
-	ip.SrcIP[15], ip.DstIP[15] = d.Src, d.Dst
+	ip.SrcIP[15], ip.DstIP[15] = d.Src, d.Dst+8
+	if d.Rev {
+		ip.SrcIP, ip.DstIP = ip.DstIP, ip.SrcIP
+	}
 	// fragment header written by hand (IPv6Fragment has no serializer): next header, reserved, offset/flags, id
 	fh := []byte{byte(layers.IPProtocolUDP), 0, byte(off / 8 >> 5), byte(off/8<<3) & 0xf8, byte(d.ID >> 24), byte(d.ID >> 16), byte(d.ID >> 8), byte(d.ID)}
 	if more {
@@ -434,11 +453,34 @@ func runV6(c *Case) *vh.Failure {
 
 // ---------- generators ----------
 
-func genDatagram(t *rapid.T, idx int, v6 bool, maxFrags int) Datagram {
+func genDatagram(t *rapid.T, idx int, v6 bool, maxFrags int, prev []Datagram) Datagram {
 	d := Datagram{Src: byte(rapid.IntRange(1, 3).Draw(t, "src")), Dst: byte(rapid.IntRange(1, 2).Draw(t, "dst")), Salt: byte(idx*37 + 11)}
 	d.ID = uint32(rapid.IntRange(0, 3).Draw(t, "id"))*1000 + uint32(idx) // distinct per datagram, sometimes close
 	if v6 {
 		d.ID |= uint32(rapid.IntRange(0, 1).Draw(t, "idhi")) << 20
+	}
+	if len(prev) > 0 && rapid.IntRange(0, 2).Draw(t, "nearkey") == 0 {
+		// same identification as an earlier datagram, the key differs in exactly one other component:
+		// the reverse direction of the same address pair, another source, or another destination
+		o := prev[rapid.IntRange(0, len(prev)-1).Draw(t, "nearof")]
+		n := Datagram{ID: o.ID, Src: o.Src, Dst: o.Dst, Rev: o.Rev, Salt: d.Salt}
+		switch rapid.IntRange(0, 2).Draw(t, "nearkind") {
+		case 0:
+			n.Rev = !o.Rev
+		case 1:
+			n.Src = o.Src%3 + 1
+		default:
+			n.Dst = o.Dst%2 + 1
+		}
+		clash := false
+		for _, q := range prev {
+			if q.ID == n.ID && q.Src == n.Src && q.Dst == n.Dst && q.Rev == n.Rev {
+				clash = true
+			}
+		}
+		if !clash {
+			d = n
+		}
 	}
 	switch rapid.IntRange(0, 9).Draw(t, "lenkind") {
 	case 0:
@@ -482,7 +524,7 @@ func genCase(t *rapid.T) *Case {
 	c.Hostile = mode == 2 || mode == 3
 	nd := rapid.IntRange(1, 4).Draw(t, "ndatagrams")
 	for i := 0; i < nd; i++ {
-		c.Datagrams = append(c.Datagrams, genDatagram(t, i, c.V6, 40))
+		c.Datagrams = append(c.Datagrams, genDatagram(t, i, c.V6, 40, c.Datagrams))
 	}
 	// per-datagram arrival lists (permutation + duplicates), then interleave
 	var queues [][]Op
